@@ -113,7 +113,7 @@ impl Scenario for IrqDispatch {
         "irq_dispatch"
     }
     fn quick_runs(&self, _f: &str) -> u64 {
-        24000
+        72000
     }
     fn chunk(&self) -> u64 {
         400
